@@ -280,9 +280,13 @@ class Unit:
 
     def body_start(self, fnref, text):
         s, p, bo, bc = self._fn_span(fnref)
-        self.text = self.text[:bo + 1] + '\n' + text + self.text[bo + 1:]
+        self.text = self.text[:bo + 1] + '\n' + text + '\n' + self.text[bo + 1:]
 
     def stub_fn(self, fnref):
+        self.no_vacuity.add(self.fnkey(fnref))
+        self._stub_fn(fnref)
+
+    def _stub_fn(self, fnref):
         """Keep the real signature of a function of /repo but drop its body (external_body): the
         function is then represented by the contract given to it, which must be justified elsewhere
         (another unit or a Kani harness) - recorded in rule_hits and in the trusted base."""
@@ -485,6 +489,8 @@ class Unit:
         contracted function: each of them must then FAIL to verify."""
         saved = self.text
         try:
+            # hand-written probes for stubs: lines `// @VACUITY-ONLY <stmt>` become live
+            self.text = re.sub(r'// @VACUITY-ONLY (.*)', r'\1 // VACUITY-PROBE', self.text)
             for key in self.contracted:
                 if key in self.no_vacuity:
                     continue
